@@ -1175,6 +1175,21 @@ func (w *world) collect(sc *jBScenario) {
 			if err != nil || v.Verify(digest[:], agg) != nil {
 				sc.SignOK = false
 			}
+			// the same set in the order the signatures might have arrived in (C01 speaks of sets of signers: the caller's
+			// order of the aligned lists must not matter): reversed for odd subsets, rotated otherwise
+			m := len(sub)
+			sigs2, signers2 := make([][]byte, m), make([]uint16, m)
+			for i := range sub {
+				j := (i + 1 + sc.SignSets%m) % m
+				if sc.SignSets%2 == 1 {
+					j = m - 1 - i
+				}
+				sigs2[i], signers2[i] = sigs[j], signers[j]
+			}
+			agg, err = v.AggregateSignatures(sigs2, signers2)
+			if err != nil || v.Verify(digest[:], agg) != nil {
+				sc.SignOK = false
+			}
 		}
 	}
 }
